@@ -61,6 +61,17 @@ class FFile(object):
         self.writer_closed = False
         self.writes = []
         self.options = None
+        self.closed = False
+
+    def close(self):
+        self.closed = True
+
+    def __enter__(self):
+        return self
+
+    def __exit__(self, *a):
+        self.closed = True
+        return False
 
 
 class _Writer(object):
